@@ -748,6 +748,10 @@ func genPrograms(prop, out, tier string, rng *rand.Rand) {
 			{app("cf", "", "+"), app("cf2", "", "x"), incr("cf", "2q", 1), app("cf", "", "!")},
 			{incr("cf", "2q", 1), incr("cf", "2q", 1), incr("cf2", "q", -41)},
 			{app("cf", "q", "new"), incr("cf2", "2q", 7), incr("cf", "2q", 9223372036854775807)},
+			// rules that change no byte still write a new version at the server time: an empty append on an
+			// existing older cell and on a missing one, an increment by zero
+			{app("cf", "", ""), app("cf", "q", ""), incr("cf", "2q", 0)},
+			{incr("cf2", "q", 0), app("cf", "", ""), app("cf", "", "")},
 		}
 		var dtasks []Task
 		for _, en := range engines() {
